@@ -35,6 +35,8 @@ type raCase struct {
 	Ops      []raOp `json:"ops"`
 	// Linger: the plugin's main() hangs after Serve has returned
 	Linger bool `json:"linger,omitempty"`
+	// TLS "static": plugin and every client use one shared certificate (process mode)
+	TLS string `json:"tls,omitempty"`
 }
 
 func runReattachCase(c raCase, bin, tmp string) []map[string]interface{} {
@@ -48,6 +50,7 @@ func runReattachCase(c raCase, bin, tmp string) []map[string]interface{} {
 	clients := map[string]*plugin.Client{}
 	stubs := map[string]*vp.Stub{}
 	failed := map[string]*plugin.Client{} // clients whose reattach found nothing
+	var tlsCert, tlsKey string
 	instance := ""
 	alive := func() bool {
 		if c.TestMode {
@@ -101,6 +104,11 @@ func runReattachCase(c raCase, bin, tmp string) []map[string]interface{} {
 					pc.AfterServe = "hang"
 				}
 				hc := &vp.HostCfg{LegacyVersion: 1, Legacy: &vp.SetCfg{Proto: "grpc", Tag: tag}, Allowed: []string{"netrpc", "grpc"}, TempDir: tmp}
+				if c.TLS == "static" {
+					tlsCert, tlsKey, _ = vp.StaticTLS()
+					pc.TLS, pc.CertPEM, pc.KeyPEM = "static", tlsCert, tlsKey
+					hc.TLS = "static"
+				}
 				pair = vp.NewPair(bin, hc, pc, []string{"TMPDIR=" + tmp}, nil)
 				st, _, err := pair.Dispense()
 				if err != nil {
@@ -128,8 +136,12 @@ func runReattachCase(c raCase, bin, tmp string) []map[string]interface{} {
 					ev["src"] = op.Src
 				}
 			}
-			cl := plugin.NewClient(&plugin.ClientConfig{HandshakeConfig: plugin.HandshakeConfig{ProtocolVersion: 1, MagicCookieKey: vp.CookieKey, MagicCookieValue: vp.CookieValue},
-				Plugins: hostSet(), Reattach: &cc, Logger: hclog.NewNullLogger(), AllowedProtocols: []plugin.Protocol{plugin.ProtocolNetRPC, plugin.ProtocolGRPC}})
+			rcfg := &plugin.ClientConfig{HandshakeConfig: plugin.HandshakeConfig{ProtocolVersion: 1, MagicCookieKey: vp.CookieKey, MagicCookieValue: vp.CookieValue},
+				Plugins: hostSet(), Reattach: &cc, Logger: hclog.NewNullLogger(), AllowedProtocols: []plugin.Protocol{plugin.ProtocolNetRPC, plugin.ProtocolGRPC}}
+			if tlsCert != "" {
+				rcfg.TLSConfig, _ = vp.TLSFromPEM(tlsCert, tlsKey)
+			}
+			cl := plugin.NewClient(rcfg)
 			cp, err := cl.Client()
 			if err != nil {
 				if errors.Is(err, plugin.ErrProcessNotFound) {
